@@ -15,7 +15,10 @@ func ShouldIncludeNode(directives []*Directive) (bool, error) {
 	skipDirective := findDirectiveWithName(directives, SKIP)
 	if skipDirective != nil {
 		b, err := parseIf(skipDirective)
-		return !b, err
+		if err != nil || b {
+			return false, err
+		}
+		// Not skipped; an @include on the same node still has to allow it.
 	}
 
 	includeDirective := findDirectiveWithName(directives, INCLUDE)
